@@ -135,11 +135,17 @@ Proof.
   destruct i; try (left; exact H).
   - destruct v; try (left; exact H).
     destruct (jget j rest) as [| | | | |l|l]; try (left; exact H);
-      (destruct l; [left; exact H|apply vloop_le; exact H]).
+      (destruct l; [left; exact H|]);
+      match type of H with key_slot n ?X = _ =>
+        destruct (vloop_le n _ _ _ _ X eq_refl) as [E|F];
+        [rewrite E; left; exact H|right; rewrite <- H; unfold key_slot; destruct (loopKey n); exact F]
+      end.
   - destruct v; try (left; exact H).
     destruct (nth_error (store (w_cerr c None)) oid) as [ob|]; [|left; exact H].
     destruct (oloop ofuel ob (prefix ++ rest)) as [[sp cnt]|]; [|left; exact H].
-    apply oloop_run_le. exact H.
+    destruct (oloop_run_le n oid sp cnt 0 (w_cerr c None) false _ eq_refl) as [E|F].
+    + rewrite E. left. exact H.
+    + right. rewrite <- H. destruct cnt; [exact F|]. unfold key_slot; destruct (loopKey n); exact F.
 Qed.
 
 Lemma branch_le n c ok e0 c' e :
